@@ -459,33 +459,109 @@ example : (fftAxis (710 / 113) ⟨1 / 8, 8, -7 / 16⟩ 2 (3 / 4) 0).dim = 12 := 
 
 /-! ## Coordinate-system conversion (over `ℝ`) -/
 
-/-- **Cartesian → polar → Cartesian returns the same point**, for every point including the origin
-and the negative x-axis. -/
-theorem polar_roundtrip (p : ℝ × ℝ) : toCart (toPolar p) = p := by
-  obtain ⟨x, y⟩ := p
-  have h1 := Complex.norm_mul_cos_arg (⟨x, y⟩ : ℂ)
-  have h2 := Complex.norm_mul_sin_arg (⟨x, y⟩ : ℂ)
-  rw [norm_mk] at h1 h2
-  simp only [toCart, toPolar, Prod.mk.injEq]
-  exact ⟨h1, h2⟩
+/-- **Cartesian → polar → Cartesian returns the same point**: over `ℝ` for every point including the origin
+and the negative x-axis (specification `toPolar` = (`hypot`, `arctan2`), `toCart`), **and** the executed exact
+conversion `cartToPolar?` / `polarToCart` (driver ops `aspolar`, `ascart`) is that specification wherever it is defined. -/
+theorem polar_roundtrip (p : ℝ × ℝ) :
+    toCart (toPolar p) = p ∧
+    ∀ x y r c s : Rat, p = ptR [x, y] → cartToPolar? [x, y] = some [r, c, s] →
+      (toPolar p).1 = (r : ℝ) ∧ Real.cos (toPolar p).2 = (c : ℝ) ∧ Real.sin (toPolar p).2 = (s : ℝ) ∧
+      polarToCart [r, c, s] = [x, y] ∧ ptR (polarToCart [r, c, s]) = p := by
+  refine ⟨toCart_toPolar p, ?_⟩
+  intro x y r c s hp h
+  subst hp
+  have hb := cartToPolar?_toPolar x y r c s h
+  obtain ⟨_, _, _, hq, _, _, _, hx, hy⟩ := cartToPolar?_spec x y _ h
+  simp only [List.cons.injEq, and_true] at hq
+  obtain ⟨rfl, rfl, rfl⟩ := hq
+  have hpc : polarToCart [r, c, s] = [x, y] := by simp [polarToCart, hx, hy]
+  refine ⟨?_, ?_, ?_, hpc, by rw [hpc]⟩
+  · simpa [ptR] using hb.1
+  · simpa [ptR] using hb.2.1
+  · simpa [ptR] using hb.2.2
 
-/-- the polar radius is the distance from the origin, and never negative -/
-theorem polar_radius (p : ℝ × ℝ) : 0 ≤ (toPolar p).1 ∧ (toPolar p).1 * (toPolar p).1 = p.1 * p.1 + p.2 * p.2 := by
-  refine ⟨Real.sqrt_nonneg _, Real.mul_self_sqrt (by nlinarith [mul_self_nonneg p.1, mul_self_nonneg p.2])⟩
+/-- the polar radius is the distance from the origin and never negative — specification and executed conversion -/
+theorem polar_radius (p : ℝ × ℝ) :
+    (0 ≤ (toPolar p).1 ∧ (toPolar p).1 * (toPolar p).1 = p.1 * p.1 + p.2 * p.2) ∧
+    ∀ x y r c s : Rat, p = ptR [x, y] → cartToPolar? [x, y] = some [r, c, s] →
+      (toPolar p).1 = (r : ℝ) ∧ 0 ≤ r ∧ r * r = x * x + y * y := by
+  refine ⟨toPolar_radius p, ?_⟩
+  intro x y r c s hp h
+  subst hp
+  have hb := cartToPolar?_toPolar x y r c s h
+  obtain ⟨_, _, _, hq, h0, hsq, _, _, _⟩ := cartToPolar?_spec x y _ h
+  simp only [List.cons.injEq, and_true] at hq
+  obtain ⟨rfl, rfl, rfl⟩ := hq
+  exact ⟨by simpa [ptR] using hb.1, h0, hsq⟩
 
-/-- **`PolarGrid.rotate`** (`θ += α`, the repaired code) rotates the physical point by `α`. -/
-theorem polar_rotate_is_rotation (r θ α : ℝ) :
-    toCart (r, θ + α) =
-      (Real.cos α * (toCart (r, θ)).1 - Real.sin α * (toCart (r, θ)).2,
-       Real.sin α * (toCart (r, θ)).1 + Real.cos α * (toCart (r, θ)).2) := by
-  simp only [toCart, Real.cos_add, Real.sin_add, Prod.mk.injEq]
-  constructor <;> ring
+/-- **`PolarGrid.rotate`** (`θ += α`) rotates the physical point by `α`: over `ℝ`, and instantiated at the
+executed `polarToCart` (direction `(c, s)` turned by `(ca, sa)`), which equals `rot2 ca sa` applied to the point. -/
+theorem polar_rotate_is_rotation (r c s ca sa : Rat) (θ α : ℝ)
+    (hc : Real.cos θ = (c : ℝ)) (hs : Real.sin θ = (s : ℝ)) (hca : Real.cos α = (ca : ℝ)) (hsa : Real.sin α = (sa : ℝ)) :
+    toCart ((r : ℝ), θ + α) =
+      (Real.cos α * (toCart ((r : ℝ), θ)).1 - Real.sin α * (toCart ((r : ℝ), θ)).2,
+       Real.sin α * (toCart ((r : ℝ), θ)).1 + Real.cos α * (toCart ((r : ℝ), θ)).2) ∧
+    toCart ((r : ℝ), θ + α) = ptR (polarToCart [r, c * ca - s * sa, s * ca + c * sa]) ∧
+    polarToCart [r, c * ca - s * sa, s * ca + c * sa] = linPt (rot2 ca sa) (polarToCart [r, c, s]) := by
+  refine ⟨toCart_rotate _ _ _, ?_, ?_⟩
+  · simp only [toCart, Real.cos_add, Real.sin_add, hc, hs, hca, hsa, ptR, polarToCart, List.getD_cons_zero, List.getD_cons_succ]
+    push_cast
+    rw [Prod.mk.injEq]
+    constructor <;> ring
+  · simp [polarToCart, linPt, rot2, dot, ratSum]
+    constructor <;> ring
 
-/-- **`PolarGrid.scale`** scales the physical point. -/
-theorem polar_scale_is_scaling (r θ k : ℝ) :
-    toCart (r * k, θ) = ((toCart (r, θ)).1 * k, (toCart (r, θ)).2 * k) := by
-  simp only [toCart, Prod.mk.injEq]
-  constructor <;> ring
+/-- **`PolarGrid.scale`** (radius × k) scales the physical point: over `ℝ`, and instantiated at the executed `polarToCart`. -/
+theorem polar_scale_is_scaling (r c s k : Rat) (θ : ℝ) (hc : Real.cos θ = (c : ℝ)) (hs : Real.sin θ = (s : ℝ)) :
+    toCart (((r * k : Rat) : ℝ), θ) = ((toCart ((r : ℝ), θ)).1 * (k : ℝ), (toCart ((r : ℝ), θ)).2 * (k : ℝ)) ∧
+    toCart (((r * k : Rat) : ℝ), θ) = ptR (scalePt [k, k] (polarToCart [r, c, s])) ∧
+    polarToCart [r * k, c, s] = scalePt [k, k] (polarToCart [r, c, s]) := by
+  refine ⟨by push_cast; exact toCart_scale _ _ _, ?_, ?_⟩
+  · simp only [toCart, hc, hs, ptR, polarToCart, scalePt, List.zipWith_cons_cons, List.getD_cons_zero, List.getD_cons_succ]
+    push_cast
+    rw [Prod.mk.injEq]
+    constructor <;> ring
+  · simp [polarToCart, scalePt]
+    constructor <;> ring
+
+/-- the hypotheses of the trigonometric bridges are satisfiable -/
+example : Real.cos 0 = ((1 : Rat) : ℝ) ∧ Real.sin 0 = ((0 : Rat) : ℝ) := by simp
+
+/-! ### `PolarGrid.shift` / `.shifted`: the three executed steps composed (`pshiftedPts`, `pshiftPts`; driver ops `pshifted`, `pshift`) -/
+
+/-- the executed composite is the translation of the Cartesian image, point by point -/
+theorem points_polar_shifted (c : Coords) (dirs : List (Rat × Rat)) (b1 b2 : Rat) :
+    c.pshiftedPts dirs [b1, b2] =
+      List.zipWith (fun p d => [p.headD 0 * d.1 + b1, p.headD 0 * d.2 + b2]) c.points dirs := by
+  simp only [Coords.pshiftedPts, Coords.asCartPts, List.map_zipWith]
+  congr 1
+
+/-- **`PolarGrid.shift` translates the points in Cartesian space.**  For a polar point `(r, θ)` with direction
+`(c, s) = (cos θ, sin θ)`: (1) the executed Cartesian image shifted by `b` is `(r c + b₁, r s + b₂)`; (2) the polar
+point the specification puts there (`toPolar`, i.e. `hypot` / `arctan2` of the shifted Cartesian point) lies at
+`toCart (r, θ) + b`; (3) wherever the executed `cartToPolar?` is defined on the shifted point, *any* angle with the
+direction it returns gives that same position. -/
+theorem points_polar_shift (r c s b1 b2 : Rat) (θ : ℝ) (hc : Real.cos θ = (c : ℝ)) (hs : Real.sin θ = (s : ℝ)) :
+    shiftPt [b1, b2] (polarToCart [r, c, s]) = [r * c + b1, r * s + b2] ∧
+    toCart (toPolar (((r * c + b1 : Rat) : ℝ), ((r * s + b2 : Rat) : ℝ))) =
+      ((toCart ((r : ℝ), θ)).1 + (b1 : ℝ), (toCart ((r : ℝ), θ)).2 + (b2 : ℝ)) ∧
+    ∀ r' c' s', cartToPolar? (shiftPt [b1, b2] (polarToCart [r, c, s])) = some [r', c', s'] →
+      ∀ θ' : ℝ, Real.cos θ' = (c' : ℝ) → Real.sin θ' = (s' : ℝ) →
+        toCart ((r' : ℝ), θ') = ((toCart ((r : ℝ), θ)).1 + (b1 : ℝ), (toCart ((r : ℝ), θ)).2 + (b2 : ℝ)) := by
+  have h1 : shiftPt [b1, b2] (polarToCart [r, c, s]) = [r * c + b1, r * s + b2] := by simp [polarToCart, shiftPt]
+  refine ⟨h1, ?_, ?_⟩
+  · rw [toCart_toPolar]; simp [toCart, hc, hs]
+  · intro r' c' s' h θ' hc' hs'
+    rw [h1] at h
+    obtain ⟨_, _, _, hq, _, _, _, hx, hy⟩ := cartToPolar?_spec _ _ _ h
+    simp only [List.cons.injEq, and_true] at hq
+    obtain ⟨rfl, rfl, rfl⟩ := hq
+    simp only [toCart, hc, hs, hc', hs', Prod.mk.injEq]
+    constructor
+    · have : ((r * c + b1 : Rat) : ℝ) = ((r' * c' : Rat) : ℝ) := by rw [hx]
+      push_cast at this; linarith
+    · have : ((r * s + b2 : Rat) : ℝ) = ((r' * s' : Rat) : ℝ) := by rw [hy]
+      push_cast at this; linarith
 
 /-! ## The executable conversion model (`cartToPolar?`, `polarToCart`, `Coords.asPolarPts`, `Coords.asCartPts`)
 
